@@ -32,6 +32,8 @@ CONSTANTS Servers,          \* {"a","b","c"}
           Barrier,          \* applyOperation issues the Raft barrier before the precondition check (code: TRUE)
           AcqBarrier,       \* leadershipAcquired issues the barrier before subscribing (code: TRUE)
           NotLeaderPanics,  \* leadershipAcquired of a server that is deposed already: ErrNotLeader -> panic (shipped: TRUE)
+          QueueGroup,       \* the propagate inbox is a queue subscription: a request reaches ONE subscribed server
+                            \* (repaired: TRUE; shipped: FALSE = every subscribed server gets a copy)
           ApplyRefuses      \* FSM Apply refuses an entry whose stream / partition is not in the required state
                             \* (repaired adbfb33: TRUE; shipped: FALSE = the entry fails in apply and every server panics)
 
@@ -111,7 +113,7 @@ FinAll(I, S, res) ==
   ELSE LET i == CHOOSE j \in S : \A k \in S : j <= k IN FinAll(Fin(I, i, res), S \ {i}, res)
 
 \* metadata.X() on server s by instance i: leader check, propagation, early check
-Dispatch(I, i, s) ==
+Dispatch(I, i, s, to) ==
   IF flag[s] \/ rleader = s THEN
      \* performed locally; the ISR operations compare the leader generation with the local (possibly stale) state first
      IF I[i].op \in IsrOps /\ ~Pre(I[i], View(s)) THEN Fin(I, i, "refused")
@@ -120,6 +122,10 @@ Dispatch(I, i, s) ==
      LET subs == {t \in Servers : sub[t]}
          ids == NextIds(I, Cardinality(subs)) IN
      IF subs = {} THEN Fin(I, i, "internal")          \* no responders
+     ELSE IF QueueGroup THEN
+          LET j == CHOOSE k \in NextIds(I, 1) : TRUE IN
+          [I EXCEPT ![i].pc = "fwd",
+                    ![j] = [I[i] EXCEPT !.at = to, !.par = i, !.pc = "recv", !.res = "", !.idx = 0, !.bar = 0, !.term = 0]]
      ELSE [j \in Ids |->
              IF j = i THEN [I[i] EXCEPT !.pc = "fwd"]
              ELSE IF j \in ids THEN
@@ -127,11 +133,14 @@ Dispatch(I, i, s) ==
                                                Cardinality({k \in ids : k < j}) IN
                   [I[i] EXCEPT !.at = t, !.par = i, !.pc = "recv", !.res = "", !.idx = 0, !.bar = 0, !.term = 0]
              ELSE I[j]]
-CanDispatch(I, i, s) ==
-  (flag[s] \/ rleader = s) \/
-  LET subs == {t \in Servers : sub[t]} IN
-    /\ NextIds(I, Cardinality(subs)) # {} \/ subs = {}
-    /\ \A t \in subs : ~HandlerBusy(I, t)
+\* to = the subscribed server that NATS hands the request to ("-" when the request is not propagated or goes to all)
+CanDispatch(I, i, s, to) ==
+  IF flag[s] \/ rleader = s THEN to = "-"
+  ELSE LET subs == {t \in Servers : sub[t]} IN
+       IF subs = {} THEN to = "-"
+       ELSE IF QueueGroup THEN to \in subs /\ NextIds(I, 1) # {} /\ ~HandlerBusy(I, to)
+       ELSE /\ to = "-" /\ NextIds(I, Cardinality(subs)) # {}
+            /\ \A t \in subs : ~HandlerBusy(I, t)
 
 \* the precondition check of applyOperation by instance i against metadata M
 Checked(I, i, M) ==
@@ -161,7 +170,7 @@ Init ==
   /\ crashed = FALSE
 
 \* a client request r enters at server s
-G_Start(r, s, op, x) ==
+G_Start(r, s, op, x, to) ==
   /\ ~crashed /\ \A i \in Ids : inst[i].r # r
   /\ NextIds(inst, 1) # {}
   /\ op \in IsrOps => (View(s).ex /\ View(s).ld = s /\ ~View(s).bad /\
@@ -172,19 +181,19 @@ G_Start(r, s, op, x) ==
          I0 == [inst EXCEPT ![i] = [Free EXCEPT !.r = r, !.op = op, !.x = x, !.at = s, !.pc = "new",
                                                !.L = IF op \in IsrOps \cup {"elect"} THEN View(s).ld ELSE "-",
                                                !.E = IF op \in IsrOps \cup {"elect"} THEN View(s).le ELSE 0]] IN
-     CanDispatch(I0, i, s)
-N_Start(r, s, op, x) ==
+     CanDispatch(I0, i, s, to)
+N_Start(r, s, op, x, to) ==
   LET i == CHOOSE j \in NextIds(inst, 1) : TRUE
       I0 == [inst EXCEPT ![i] = [Free EXCEPT !.r = r, !.op = op, !.x = x, !.at = s, !.pc = "new",
                                             !.L = IF op \in IsrOps \cup {"elect"} THEN View(s).ld ELSE "-",
                                             !.E = IF op \in IsrOps \cup {"elect"} THEN View(s).le ELSE 0]] IN
-  [inst |-> Dispatch(I0, i, s), log |-> log, applied |-> applied, rleader |-> rleader, term |-> term, flag |-> flag,
+  [inst |-> Dispatch(I0, i, s, to), log |-> log, applied |-> applied, rleader |-> rleader, term |-> term, flag |-> flag,
    sub |-> sub, evq |-> evq, lp |-> lp, crashed |-> crashed]
 
 \* a propagated request is taken up by the handler of its server
-G_Handle(i) == ~crashed /\ i \in Ids /\ inst[i].pc = "recv" /\ CanDispatch(inst, i, inst[i].at)
-N_Handle(i) ==
-  [inst |-> Dispatch(inst, i, inst[i].at), log |-> log, applied |-> applied, rleader |-> rleader, term |-> term,
+G_Handle(i, to) == ~crashed /\ i \in Ids /\ inst[i].pc = "recv" /\ CanDispatch(inst, i, inst[i].at, to)
+N_Handle(i, to) ==
+  [inst |-> Dispatch(inst, i, inst[i].at, to), log |-> log, applied |-> applied, rleader |-> rleader, term |-> term,
    flag |-> flag, sub |-> sub, evq |-> evq, lp |-> lp, crashed |-> crashed]
 
 \* applyOperation: mutex, barrier, precondition check
@@ -272,8 +281,8 @@ Set(n) ==
   /\ inst' = n.inst /\ log' = n.log /\ applied' = n.applied /\ rleader' = n.rleader /\ term' = n.term
   /\ flag' = n.flag /\ sub' = n.sub /\ evq' = n.evq /\ lp' = n.lp /\ crashed' = n.crashed /\ slow' = slow
 
-DoStart(r, s, op, x) == G_Start(r, s, op, x) /\ Set(N_Start(r, s, op, x))
-DoHandle(i) == G_Handle(i) /\ Set(N_Handle(i))
+DoStart(r, s, op, x, to) == G_Start(r, s, op, x, to) /\ Set(N_Start(r, s, op, x, to))
+DoHandle(i, to) == G_Handle(i, to) /\ Set(N_Handle(i, to))
 DoLock(i) == G_Lock(i) /\ Set(N_Lock(i))
 DoPropose(i, x) == G_Propose(i, x) /\ Set(N_Propose(i, x))
 DoApply(s) == G_Apply(s) /\ Set(N_Apply(s))
